@@ -110,4 +110,48 @@ theorem C11_scan_length_canonical (a b m : Str) (ha : SL.Digits a) (hb : SL.Digi
 /-- the canonical text is what the harness observes from proc_macro2 (instance) -/
 example : SL.tokensOf cl!"1" cl!"20" cl!"short text" = cl!"length (min = 1 , max = 20 , message = \"short text\")" := by decide +kernel
 
+/-- the same for `range`: the scanner keeps the declared bound texts (the numeric reading is `canonDec`, below) -/
+theorem C11_scan_range_canonical (a b m : Str) (ha : SL.Digits a) (hb : SL.Digits b)
+    (hq : '"' ∉ m) (hbs : '\\' ∉ m) (hp : ')' ∉ m) :
+    VP.parseRange (SL.rangeTokensOf a b m) = some { min := some a, max := some b, message := some m } :=
+  SL.C11_scan_range_canonical a b m ha hb hq hbs hp
+
+example : SL.rangeTokensOf cl!"1" cl!"20" cl!"out of range" = cl!"range (min = 1 , max = 20 , message = \"out of range\")" := by decide +kernel
+
+/-! ## from the attribute text to the schema text (both stages composed) -/
+
+/-- **C11, end to end, `length` on a string field, unbounded**: for all numerals `A`, `B` and every message `M` (free of
+    `"`, `\`, `)` and of the other validators' keywords — the known findings K11b, K11d, K11e), the schema emitted for
+    `#[validate(length(min = A, max = B, message = "M"))] x: String` is
+    `z.string().min(A, { message: "M" }).max(B, { message: "M" })`: exactly the declared bounds (dropped only when they
+    do not fit `u64`), the message escaped, and neither `.email()` nor `.url()` -/
+theorem C11_length_end_to_end (mp : Mappings) (a b m : Str) (ha : SL.Digits a) (hb : SL.Digits b)
+    (hq : '"' ∉ m) (hbs : '\\' ∉ m) (hp : ')' ∉ m)
+    (hr : A.containsSub VP.kwRange (SL.tokensOf a b m) = false) (he : A.containsSub VP.kwEmail (SL.tokensOf a b m) = false)
+    (hu : A.containsSub VP.kwUrl (SL.tokensOf a b m) = false) :
+    buildSchema mp (.prim cl!"string") ((VP.parseValidator [some (SL.tokensOf a b m)]).map VP.toValidator) =
+      applyBound cl!"z.string()" ⟨(VP.parseU64 a).map VP.natToStr, (VP.parseU64 b).map VP.natToStr, some m⟩ :=
+  SL.C11_length_end_to_end mp a b m ha hb hq hbs hp hr he hu
+
+/-- … `range` on a numeric field: `z.coerce.number().min(A, { message: "M" }).max(B, { message: "M" })` with the bounds in
+    canonical decimal -/
+theorem C11_range_end_to_end (mp : Mappings) (a b m : Str) (ha : SL.Digits a) (hb : SL.Digits b)
+    (hq : '"' ∉ m) (hbs : '\\' ∉ m) (hp : ')' ∉ m)
+    (hl : A.containsSub VP.kwLength (SL.rangeTokensOf a b m) = false) (he : A.containsSub VP.kwEmail (SL.rangeTokensOf a b m) = false)
+    (hu : A.containsSub VP.kwUrl (SL.rangeTokensOf a b m) = false) :
+    buildSchema mp (.prim cl!"number") ((VP.parseValidator [some (SL.rangeTokensOf a b m)]).map VP.toValidator) =
+      applyBound cl!"z.coerce.number()" ⟨VP.canonDec a, VP.canonDec b, some m⟩ :=
+  SL.C11_range_end_to_end mp a b m ha hb hq hbs hp hl he hu
+
+/-- the hypotheses are satisfiable, and the conclusion is the text one expects (instance) -/
+example : buildSchema [] (.prim cl!"string") ((VP.parseValidator [some (SL.tokensOf cl!"1" cl!"20" cl!"too short!")]).map VP.toValidator) =
+    cl!"z.string().min(1, { message: \"too short!\" }).max(20, { message: \"too short!\" })" := by decide +kernel
+example : SL.Digits cl!"20" ∧ '"' ∉ cl!"too short!" ∧ '\\' ∉ cl!"too short!" ∧ ')' ∉ cl!"too short!" ∧
+    A.containsSub VP.kwRange (SL.tokensOf cl!"1" cl!"20" cl!"too short!") = false ∧
+    A.containsSub VP.kwEmail (SL.tokensOf cl!"1" cl!"20" cl!"too short!") = false ∧
+    A.containsSub VP.kwUrl (SL.tokensOf cl!"1" cl!"20" cl!"too short!") = false := by
+  refine ⟨⟨by decide, by decide⟩, by decide, by decide, by decide, by decide +kernel, by decide +kernel, by decide +kernel⟩
+example : buildSchema [] (.prim cl!"number") ((VP.parseValidator [some (SL.rangeTokensOf cl!"007" cl!"10" cl!"1 to 10")]).map VP.toValidator) =
+    cl!"z.coerce.number().min(7, { message: \"1 to 10\" }).max(10, { message: \"1 to 10\" })" := by decide +kernel
+
 end TG.C11
